@@ -278,6 +278,30 @@ pub fn alphabet(w: &World, r: usize, cfg: &L1Cfg) -> Vec<(String, Input)> {
         // under-weight certificate
         let weak = w.commit_qc(&w.commit_vote(vmax, 0, &px), 1 << env[0]);
         out.push(("new-view carrying an under-weight commit certificate".into(), Input::Msg(w.new_view(env[0], &v2::ProposalJustification::Commit(weak)))));
+        // certificates that do not verify (one signer, weight below the quorum), for EVERY view and in every
+        // carrier: whatever state the replica is in - also when the message is for its current view and comes
+        // from that view's leader - they must be refused and must leave no trace
+        for v in 0..=vmax {
+            let weak_c = w.commit_qc(&w.commit_vote(v, 0, &px), 1 << env[0]);
+            let weak_t = w.timeout_qc(v, &[(env[0], w.timeout_vote(v, None, None))]);
+            let leader = w.leader(v + 1);
+            for (jn, j) in [(format!("under-weight CQ(v{v},b0,X)"), v2::ProposalJustification::Commit(weak_c.clone())), (format!("under-weight TQ(v{v},plain)"), v2::ProposalJustification::Timeout(weak_t.clone()))] {
+                let sender = if leader != r { leader } else { env[0] };
+                out.push((format!("new-view[{jn}] from v{sender} (does not verify)"), Input::Msg(w.new_view(sender, &j))));
+                if cfg.narrow {
+                    continue;
+                }
+                if let Some(other) = env.iter().copied().find(|i| *i != sender) {
+                    out.push((format!("new-view[{jn}] from v{other} (does not verify)"), Input::Msg(w.new_view(other, &j))));
+                }
+                if leader != r {
+                    out.push((format!("proposal[{jn}, payload X] from the leader (does not verify)"), Input::Msg(w.proposal(leader, &j, Some(px.clone())))));
+                }
+            }
+            if !cfg.narrow {
+                out.push((format!("timeout vote(v{},highqc under-weight CQ(v{v})) from v{} (does not verify)", v + 1, env[0]), Input::Msg(w.signed_timeout(env[0], &w.timeout_vote(v + 1, None, Some(weak_c.clone()))))));
+            }
+        }
         // other epoch
         let mut ov = w.commit_vote(vmax, 0, &px);
         ov.view.epoch = validator::EpochNumber(1);
